@@ -11,7 +11,7 @@ snapshot a `vp run --with-repo` provides ($VP_RUN_REPO).
 import argparse, json, os, re, subprocess, sys, time
 
 EXTRA = {  # seeds that a second property's check should also see
-    "C01": ["C19"], "C19": ["C01"], "C06": ["C02", "C05"], "C04": ["C02"], "C07": ["C18"],
+    "C01": ["C19"], "C19": ["C01"], "C06": ["C02"],
 }
 
 def sh(cmd, cwd=None, timeout=3600):
